@@ -181,7 +181,7 @@ class Harness(cm.BaseA):
         return all_events(config, True, thin) + transfers(config)
 
     def canon(self, W, config):
-        return b"|".join(lw._volumes.tobytes() for _, lw in sorted(W["lw"].items()))
+        return b"|".join(lw.volumes.astype(float).tobytes() for _, lw in sorted(W["lw"].items()))
 
     def step(self, W, ev, config):
         op = ev[0]
